@@ -172,6 +172,34 @@ impl Model {
         j
     }
 
+    /// Reference-side state digest for BFS de-duplication.  A flow's future (as far as the
+    /// model decides it) depends only on: muddled / answered flags, and otherwise on the stream
+    /// received so far; a stream on which no signature can complete any more, or whose request
+    /// is already invalid, is abstracted to a marker (all such streams have the same future:
+    /// bare ACKs).
+    pub fn table_digest(&self, tbl: &ModelTable) -> String {
+        let mut s = String::new();
+        for (k, f) in &tbl.flows {
+            let st = if f.muddled {
+                "M".to_string()
+            } else if f.answered {
+                "A".to_string()
+            } else {
+                match sig::dispatch(&self.sigs, &f.stream, false) {
+                    Dispatch::Dead => "D".to_string(),
+                    Dispatch::Pending => format!("P:{}", hex(&f.stream)),
+                    Dispatch::Matched(Proto::Http, _, _) => match app::http_status(&f.stream) {
+                        app::HttpStatus::Invalid(_) => "I".to_string(),
+                        _ => format!("H:{}", hex(&f.stream)),
+                    },
+                    Dispatch::Matched(..) => format!("X:{}", hex(&f.stream)),
+                }
+            };
+            s.push_str(&format!("{}:{}>{}:{}|{};", k.cip, k.cport, k.sip, k.sport, st));
+        }
+        s
+    }
+
     /// judge() plus the connection-table size oracle of C09 (needs the table size probe).
     pub fn judge_out(&self, cfg: &Cfg, tbl: &mut ModelTable, frame: &[u8], out: &crate::driver::Out) -> Judgement {
         tbl.pending_maybe = None;
